@@ -1,4 +1,6 @@
 import Model.C14.Descsum
+import Model.C15.Text
+import Model.C15.Bounds
 import Generated.Descriptor
 /-
 C14 — output descriptors as text: the AST `parse` builds, the writer (`Descriptor.__str__`,
@@ -11,8 +13,9 @@ is one of `INPUT_CHARSET` (`strip_checksum` comes first), so `str.strip()` strip
 
 What a key atom IS is not this model's business: whether a run of characters is an extended key
 (Base58Check + BIP32 validation, C06/C07), a point on the curve (C01) or a WIF is answered by a
-`KeyOracle`; the grammar around the atoms is what is modelled.  `musig()` and miniscript bodies
-are answered `unsupported` (C16 / C15 own those grammars).
+`KeyOracle`; the grammar around the atoms is what is modelled.  A miniscript body (inside `wsh()`, or a
+`tr()` leaf) is read and written by C15's model (`Btc.Miniscript.parse / toText`, raw hex keys); `musig()`
+and miniscripts over other key expressions are answered `unsupported`.
 -/
 namespace Btc.Desc
 open Btc Gen.Descriptor
@@ -53,7 +56,9 @@ inductive Tree
   | pk (k : Key)
   | multiA (thr : Nat) (keys : List Key) (sort : Bool)
   | branch (l r : Tree)
-  deriving Repr, DecidableEq
+  /-- a tapscript miniscript leaf (C15's AST, raw x-only keys) -/
+  | ms (n : Miniscript.Ms)
+  deriving DecidableEq
 
 /-- the fragment classes. -/
 inductive D
@@ -62,7 +67,9 @@ inductive D
   | multi (thr : Nat) (keys : List Key) (sort : Bool)
   | tr (k : Key) (tree : Option Tree) | rawtr (k : Key)
   | addr (a : List Char) | raw (script : Bytes)
-  deriving Repr, DecidableEq
+  /-- `MiniscriptDescriptor`: a P2WSH miniscript (C15's AST, raw compressed keys), inside `wsh()` -/
+  | ms (n : Miniscript.Ms)
+  deriving DecidableEq
 
 /-! ## writer -/
 
@@ -123,6 +130,7 @@ def strTree : Tree → List Char
   | .pk k => call nPk [strKey k]
   | .multiA t ks sort => call (if sort then nSortedmultiA else nMultiA) (decChars t :: ks.map strKey)
   | .branch l r => '{' :: (strTree l ++ ',' :: (strTree r ++ ['}']))
+  | .ms n => Miniscript.toText n
 
 /-- `Descriptor.__str__` -/
 def strD : D → List Char
@@ -138,6 +146,7 @@ def strD : D → List Char
   | .rawtr k => call nRawtr [strKey k]
   | .addr a => call nAddr [a]
   | .raw s => call nRaw [hexChars s]
+  | .ms n => Miniscript.toText n
 
 /-! ## reader -/
 
@@ -394,6 +403,21 @@ def parseMultiArgs (o : KeyOracle) (xOnly compressed musigOk : Bool) (args : Lis
       | .ok keys => .ok (thr, keys)
   | _ => .error .value
 
+/-- `_parse_miniscript_expression` / `_parse_leaf_miniscript`: `miniscript.parse` in the position's dialect
+    (C15's reader, which knows raw hex keys: anything else it cannot read is `unsupported`), every key a
+    point of the size the dialect takes, then `_assert_sane` (sane and satisfiable). -/
+def parseMs (o : KeyOracle) (ctx : Miniscript.Ctx) (e : List Char) : P Miniscript.Ms :=
+  match Miniscript.parse ctx e with
+  | none => .error .unsupported
+  | some n =>
+    let keyOk (k : Bytes) : Bool :=
+      match ctx with
+      | .p2wsh => k.length == 33 && (k.head? == some 2 || k.head? == some 3) && o.validPub k
+      | .tapscript => k.length == 32 && o.validPub (2 :: k)
+    if !(Miniscript.keysOf n).all keyOk then .error .value
+    else if Miniscript.isSane ctx n && (Miniscript.maxStackItems ctx n).isSome then .ok n
+    else .error .value
+
 /-- `expression[len(name) + 1 : -1]` -/
 def inner (name e : List Char) : List Char := (e.drop (name.length + 1)).dropLast
 
@@ -435,7 +459,7 @@ def parseTree (o : KeyOracle) : Nat → Nat → List Char → P Tree
             | .error x => .error x
             | .ok a => (parseKey o true true true a).map .pk
         | some _ => .error .value          -- `_assert_position(name, _P2TR, …)`: only pk() allows tr()
-        | none => .error .unsupported      -- a tapscript miniscript leaf
+        | none => (parseMs o .tapscript e).map .ms      -- a tapscript miniscript leaf
 
 /-- `bytes.fromhex` allows spaces only between two-digit groups. -/
 def pairsAligned : List Char → Bool
@@ -479,7 +503,7 @@ def parseExpr (o : KeyOracle) : Nat → Ctx → List Char → P D
     if name == nMusig then .error .value
     else if isTreeFn name && ctx != .tr then .error .value
     else match fnOf name with
-      | none => if ctx == .wsh || ctx == .tr then .error .unsupported else .error .value
+      | none => if ctx == .wsh then (parseMs o .p2wsh e).map .ms else .error .value
       | some fn =>
         match splitFunction e with
         | .error x => .error x
@@ -509,11 +533,13 @@ def Tree.mapKeys (f : Key → Key) : Tree → Tree
   | .pk k => .pk (f k)
   | .multiA t ks s => .multiA t (ks.map f) s
   | .branch l r => .branch (l.mapKeys f) (r.mapKeys f)
+  | .ms n => .ms n
 
 def Tree.keys : Tree → List Key
   | .pk k => [k]
   | .multiA _ ks _ => ks
   | .branch l r => l.keys ++ r.keys
+  | .ms _ => []
 
 /-- `_mapped_keys(descriptor, key_map)` -/
 def D.mapKeys (f : Key → Key) : D → D
@@ -522,6 +548,7 @@ def D.mapKeys (f : Key → Key) : D → D
   | .multi t ks s => .multi t (ks.map f) s
   | .tr k t => .tr (f k) (t.map (·.mapKeys f)) | .rawtr k => .rawtr (f k)
   | .addr a => .addr a | .raw s => .raw s
+  | .ms n => .ms n
 
 /-- `Descriptor.key_expressions` -/
 def D.keys : D → List Key
@@ -530,7 +557,7 @@ def D.keys : D → List Key
   | .multi _ ks _ => ks
   | .tr k none => [k]
   | .tr k (some t) => k :: t.keys
-  | .addr _ | .raw _ => []
+  | .addr _ | .raw _ | .ms _ => []
 
 def D.isRanged (d : D) : Bool := d.keys.any Key.isRanged
 
